@@ -124,6 +124,13 @@ impl Serializable for P256Point {
             .ok_or_else(|| {
                 CryptoCoreError::GenericDeserializationError("cannot deserialize point".to_string())
             })?;
+        // Only accept the encoding `write` produces: the SEC1 parser also
+        // decodes other encodings of the same point (e.g. the compact one).
+        if point.to_bytes().as_slice() != bytes.as_slice() {
+            return Err(CryptoCoreError::GenericDeserializationError(
+                "non-canonical point encoding".to_string(),
+            ));
+        }
         Ok(Self(point))
     }
 }
